@@ -5,18 +5,27 @@ value, recorded sizes of byte-occupying fields, consumed bytes, layout (size/off
 generator cannot handle must fall back silently. The generated source (`_read.__func__.__source__`) is translated to a
 plan and validated against the field list by the Lean model (translation validation, see srcplan.py), and the compiled
 reader is compared with the Lean model of the interpreted reader.
+
+Pointer probes: the pointer width is drawn from all seven widths, including the ones that are not struct-packable
+(uint24/uint48/uint128) for which the generator has to fall back; a third family (c) runs every pointer-bearing field kind
+(scalar pointer, pointer arrays of one and two dimensions, char/struct pointer arrays, pointer to pointer) alone, next to
+non-pointer neighbours and in pairs under every pointer width.  Dereference probe: the pointer slots of each input are
+planted with addresses (null, inside the buffer, last byte, one past the end, beyond, top of the address space) and what
+every pointer member/element of the parsed value dereferences to (value, recursively, or the exception class) is compared
+between the two readers.  Fallback probe: a structure class with a direct pointer member (through arrays) under a
+non-packable pointer type is one the generator cannot handle, so its `__compiled__` flag must be off.
 """
 from __future__ import annotations
 
 import itertools
 
-from .. import defs, impl, refimpl, srcplan
+from .. import defs, impl, refimpl, s2_ptr, srcplan
 from ..common import A, Result, mkrng, sx
 from ..structprops import Engine, load, real_parse, small_unit_bits, rand_bytes, has_eof
 
 
 def alphabet_fields():
-    """the 14-letter alphabet of field kinds used for the exhaustive short sequences"""
+    """the 20-letter alphabet of field kinds used for the exhaustive short sequences"""
     S = lambda n: ("sc", n)  # noqa: E731
     return {
         "u8": lambda n: [{"name": n, "ty": S("uint8"), "bits": None}],
@@ -33,6 +42,8 @@ def alphabet_fields():
         "sarr": lambda n: [{"name": n, "ty": ("arr", ("struct", [{"name": n + "x", "ty": S("uint16"), "bits": None}]), ("fixed", 2)), "bits": None}],
         "dyn": lambda n: [{"name": n, "ty": ("arr", S("uint8"), ("null",)), "bits": None}],
         "ptr": lambda n: [{"name": n, "ty": ("ptr", S("uint8")), "bits": None}],
+        "parr": lambda n: [{"name": n, "ty": ("arr", ("ptr", S("uint16")), ("fixed", 2)), "bits": None}],
+        "cparr": lambda n: [{"name": n, "ty": ("arr", ("ptr", S("char")), ("fixed", 2)), "bits": None}],
         "en": lambda n: [{"name": n, "ty": ("enum", "E8"), "bits": None}],
         "void": lambda n: [{"name": n, "ty": S("void"), "bits": None}],
         "wc": lambda n: [{"name": n, "ty": ("arr", S("wchar"), ("fixed", 1)), "bits": None}],
@@ -40,13 +51,36 @@ def alphabet_fields():
     }
 
 
+def pointer_fields():
+    """pointer-bearing field kinds of family (c) and their non-pointer neighbours"""
+    S = lambda n: ("sc", n)  # noqa: E731
+    ent = lambda n: ("struct", [{"name": n + "i", "ty": S("uint16"), "bits": None}, {"name": n + "g", "ty": S("uint16"), "bits": None}])  # noqa: E731
+    alpha = alphabet_fields()
+    ptrs = {
+        "ptr": alpha["ptr"], "parr": alpha["parr"], "cparr": alpha["cparr"],
+        "cptr": lambda n: [{"name": n, "ty": ("ptr", S("char")), "bits": None}],
+        "pp": lambda n: [{"name": n, "ty": ("ptr", ("ptr", S("uint16"))), "bits": None}],
+        "parr3": lambda n: [{"name": n, "ty": ("arr", ("ptr", S("uint32")), ("fixed", 3)), "bits": None}],
+        "parr2d": lambda n: [{"name": n, "ty": ("arr", ("arr", ("ptr", S("uint16")), ("fixed", 2)), ("fixed", 2)), "bits": None}],
+        "sparr": lambda n: [{"name": n, "ty": ("arr", ("ptr", ent(n)), ("fixed", 3)), "bits": None}],
+        "pparr": lambda n: [{"name": n, "ty": ("arr", ("ptr", ("ptr", S("uint8"))), ("fixed", 2)), "bits": None}],
+        "parr1": lambda n: [{"name": n, "ty": ("arr", ("ptr", ("enum", "E8")), ("fixed", 1)), "bits": None}],
+        "stparr": lambda n: [{"name": n, "ty": ("struct", [{"name": n + "n", "ty": S("uint8"), "bits": None},
+                                                           {"name": n + "q", "ty": ("arr", ("ptr", S("char")), ("fixed", 2)), "bits": None}]), "bits": None}],
+    }
+    near = {k: alpha[k] for k in ("u8", "u16", "i24", "bits8", "st", "dyn", "carr", "void")}
+    return ptrs, near
+
+
 def run(env) -> Result:
     res = Result()
-    res.rule = ("(a) all sequences of up to 3 (quick: sampled; thorough: all up to 3 and sampled 4) field kinds over an 18-letter alphabet "
+    res.rule = ("(a) all sequences of up to 3 (quick: sampled; thorough: all up to 3 and sampled 4) field kinds over a 20-letter alphabet "
                 "(scalars of each alignment class, bit-field runs of two storage types, packed/char/wchar/zero-length arrays, nested struct, struct "
-                "array, dynamic array, pointer, enum, void); (b) seeded random definition trees; each x {<,>} x {packed, aligned} x pointer "
-                "width 8..64; inputs: random buffers, then every cut point of one accepted buffer. Compared: compiled vs interpreted (value, "
-                "sizes, consumed, layout), compiled vs Lean model of the interpreted reader, generated source vs plan validator. distinct = "
+                "array, dynamic array, pointer, pointer arrays, enum, void); (b) seeded random definition trees; each x {<,>} x {packed, aligned} x "
+                "pointer width 8..128 (packable and not); (c) 11 pointer-bearing field kinds alone, before/after 8 neighbours and in pairs x all 7 "
+                "pointer widths; inputs: random buffers with addresses planted into the pointer slots, then every cut point of one accepted "
+                "buffer. Compared: compiled vs interpreted (value, sizes, consumed, layout, what every pointer dereferences to), __compiled__ vs "
+                "fallback required, compiled vs Lean model of the interpreted reader, generated source vs plan validator. distinct = "
                 "(definition, config, input); non-trivial = >= 2 fields")
     eng = Engine(env, res, "C03")
     rnd = mkrng(env["seed"], "c03")
@@ -66,113 +100,166 @@ def run(env) -> Result:
         trees.append(("struct", fields))
     for _ in range(250 if tier == "quick" else 8000):
         trees.append(defs.Gen(rnd, max_depth=rnd.choice([1, 2])).struct())
-    nplans = 0
+    nplans = [0]
+
+    def probe(tree, endian, align, ptr):
+        Li, erri = load(tree, endian=endian, align=align, compiled=False, pointer=ptr)
+        Lc, errc = load(tree, endian=endian, align=align, compiled=True, pointer=ptr)
+        sigs = ["F23"] if (align and small_unit_bits(tree)) else []
+        if Li is None:
+            if Lc is not None:
+                eng.report(f"definition loads compiled but not interpreted ({type(erri).__name__})", eng.case_data(Lc), sigs)
+            return
+        if Lc is None:
+            eng.report(f"definition loads interpreted but fails compiled instead of falling back: {type(errc).__name__}: {errc}", eng.case_data(Li), sigs)
+            return
+        Ti, Tc = Li.T, Lc.T
+        for k, v in defs.features(tree).items():
+            res.feat(k, v)
+        res.feat("compiled-flag:" + str(Tc.__compiled__))
+        res.feat("pointer-width:" + ptr)
+        cd0 = eng.case_data(Lc)
+        if not Tc.__compiled__:
+            res.feat("fallback-to-interpreted")
+        # fallback: a class the generator cannot handle (pointer member, pointer type not struct-packable) is not compiled
+        need = s2_ptr.classes_needing_fallback(Tc)
+        for path, cls in need:
+            res.feat("fallback-required:unpackable-pointer")
+            if cls.__compiled__:
+                eng.report(f"{path} has pointer members and the pointer type {ptr} is not struct-packable, so the source generator cannot handle "
+                           f"it, but it did not fall back to the interpreted reader (__compiled__ is True)", cd0, sigs)
+        if Ti.__compiled__:
+            eng.report("a definition loaded with compiled=False has a generated reader installed", eng.case_data(Li), sigs)
+        # layout
+        if (Ti.size, Ti.alignment, [f.offset for f in Ti.__fields__]) != (Tc.size, Tc.alignment, [f.offset for f in Tc.__fields__]):
+            eng.report("compiled and interpreted classes have different size/alignment/offsets", cd0, sigs)
+        # generated source -> plan, validated by the model
+        psx = None
+        if Tc.__compiled__ and "F23" not in sigs:
+            try:
+                plan = srcplan.parse_source(Tc._read.__func__.__source__)
+                nplans[0] += 1
+                ok, why = srcplan.validate(plan, tree, Tc, refimpl.Cfg(endian, align, ptr, impl.CONSTS))
+                if not ok:
+                    eng.disagree(f"generated source does not validate against the field list: {why}", dict(cd0, source=Tc._read.__func__.__source__), sigs)
+                # the verified validator (Lean: Compiler.planOK, theorem c03_plan_sound) on the same plan
+                psx = srcplan.plan_sexp(plan)
+
+                def cb_ok(s, raw, meta):
+                    if s[0] != "ok":
+                        eng.disagree(f"the Lean plan validator does not accept the generated source ({raw[:80]})", meta, sigs)
+                eng.ask(sx([A("planok"), Lc.cfg_sexp(), Lc.ty_sexp(), psx]), cb_ok, dict(cd0, source=Tc._read.__func__.__source__))
+            except srcplan.Unknown as e:
+                eng.disagree(f"generated source has a statement shape the plan translator does not know: {e}", dict(cd0, source=Tc._read.__func__.__source__), sigs)
+        # behaviour
+        size = Ti.size if Ti.size is not None else 40
+        bufs = [rand_bytes(rnd, size + rnd.choice([0, 3, 9])) for _ in range(3)]
+        slots = s2_ptr.pointer_slots(Ti)
+        if slots:
+            # addresses planted into the pointer slots, so that dereferencing reaches the buffer (and its edges)
+            psz = Ti.cs.pointer.size
+            bufs = [s2_ptr.plant(rnd, d + (rand_bytes(rnd, rnd.choice([0, 6, 24])) if len(d) >= size else b""), slots, psz, endian)[0] for d in bufs]
+            res.feat("pointer-slots-planted", len(slots))
+        accepted = None
+        for data in bufs:
+            wi, oi = real_parse(Ti, data)
+            wc, oc = real_parse(Tc, data)
+            res.count((Lc.text, endian, align, ptr, data), len(tree[1]) >= 2)
+            cd = eng.case_data(Lc, data=data)
+            if wi[0] == "ok" and wc[0] == "ok":
+                if not impl.same_val(wi[1], wc[1]) or wi[2] != wc[2] or wi[3] != wc[3]:
+                    eng.report(f"compiled gives {str(wc)[:300]}, interpreted gives {str(wi)[:300]}", cd, sigs)
+                else:
+                    # the value of a pointer member is what it points at: dereference every pointer of both results
+                    di, dcm = s2_ptr.deref_observations(oi), s2_ptr.deref_observations(oc)
+                    if di or dcm:
+                        res.feat("deref-compared", len(di))
+                    if len(di) != len(dcm):
+                        eng.report(f"the compiled result holds {len(dcm)} pointers, the interpreted one {len(di)}", cd, sigs)
+                    for (pa, aa, oa), (pb, ab, ob) in zip(di, dcm):
+                        res.feat("deref-outcome:" + oa[0])
+                        if (pa, aa) != (pb, ab) or not s2_ptr.same_outcome(oa, ob):
+                            eng.report(f"dereferencing {pa[1:]} (address {aa}): the compiled reader's pointer gives {s2_ptr.show(ob)}, the interpreted "
+                                       f"reader's gives {s2_ptr.show(oa)}", dict(cd, member=pa[1:], address=aa), sigs)
+                            break
+                accepted = accepted or data
+            elif wi[0] != wc[0]:
+                # one raises: allowed only on an input too short for the structure
+                complete = Ti.size is not None and len(data) >= Ti.size
+                if complete or (wi[0] == "err" and wi[1] != "EOFError") or (wc[0] == "err" and wc[1] != "EOFError"):
+                    eng.report(f"compiled gives {str(wc)[:200]}, interpreted gives {str(wi)[:200]} on a complete input", cd, sigs)
+                else:
+                    res.feat("short-input:one-reader-raises")
+            if "F23" not in sigs:
+                eng.model_read(Lc, data, 0, wc if wc[0] == "ok" or wi[0] == "err" else wi, "compiled reader vs model of the interpreted reader",
+                               sigs) if (wc[0] == wi[0]) else None
+                if psx is not None:
+                    # the model's execution of the plan (Compiler.exec) vs the real compiled reader
+                    def cb_ex(s, raw, meta, want=wc):
+                        if want[0] == "ok":
+                            ok = s[0] == "ok" and impl.same_val(want[1], s[1]) and int(s[2]) == want[2] and \
+                                sorted((str(k), int(v)) for k, v in s[3] if int(v)) == want[3]
+                        else:
+                            ok = s[0] == "err" and str(s[1]) == want[1]
+                        if not ok:
+                            eng.disagree(f"model execution of the plan gives {raw[:300]}, the compiled reader gives {str(want)[:300]}", meta, sigs)
+                    eng.ask(sx([A("execplan"), Lc.cfg_sexp(), Lc.ty_sexp(), psx, data, 0]), cb_ex, cd)
+        # every cut point of one accepted buffer
+        if accepted is not None:
+            full, _ = real_parse(Ti, accepted)
+            for k in range(min(len(accepted), full[2] + 1)):
+                cut = accepted[:k]
+                wi, _ = real_parse(Ti, cut)
+                wc, _ = real_parse(Tc, cut)
+                res.count((Lc.text, endian, align, ptr, cut), False)
+                if wi[0] == "ok" and wc[0] == "ok" and (not impl.same_val(wi[1], wc[1]) or wi[2] != wc[2]):
+                    eng.report(f"cut at {k}: compiled gives {str(wc)[:200]}, interpreted gives {str(wi)[:200]}", eng.case_data(Lc, data=cut), sigs)
+                for w in (wi, wc):
+                    if w[0] == "err" and w[1] != "EOFError" and not has_eof(tree):
+                        eng.report(f"cut at {k}: raises {w[1]} instead of EOFError", eng.case_data(Lc, data=cut), sigs)
+        # endianness switched after compilation
+        if rnd.random() < 0.15 and accepted is not None:
+            other = ">" if endian == "<" else "<"
+            Lc.cs.endian = other
+            Li.cs.endian = other
+            wi, _ = real_parse(Ti, accepted)
+            wc, _ = real_parse(Tc, accepted)
+            if wi[0] == wc[0] == "ok" and not impl.same_val(wi[1], wc[1]):
+                eng.report("after switching endianness the compiled reader differs from the interpreted one", eng.case_data(Lc, data=accepted), sigs)
+            res.feat("endian-switch")
+
+    widths = s2_ptr.PACKED_PTRS + ["uint64"] + s2_ptr.UNPACKED_PTRS
     for tree in trees:
         for endian, align in itertools.product("<>", (False, True)):
             if tier == "quick" and rnd.random() < 0.5:
                 continue
-            ptr = rnd.choice(["uint64", "uint32", "uint16", "uint8", "uint64"])
-            Li, erri = load(tree, endian=endian, align=align, compiled=False, pointer=ptr)
-            Lc, errc = load(tree, endian=endian, align=align, compiled=True, pointer=ptr)
-            sigs = ["F23"] if (align and small_unit_bits(tree)) else []
-            if Li is None:
-                if Lc is not None:
-                    eng.report(f"definition loads compiled but not interpreted ({type(erri).__name__})", eng.case_data(Lc), sigs)
-                continue
-            if Lc is None:
-                eng.report(f"definition loads interpreted but fails compiled instead of falling back: {type(errc).__name__}: {errc}", eng.case_data(Li), sigs)
-                continue
-            Ti, Tc = Li.T, Lc.T
-            for k, v in defs.features(tree).items():
-                res.feat(k, v)
-            res.feat("compiled-flag:" + str(Tc.__compiled__))
-            cd0 = eng.case_data(Lc)
-            if not Tc.__compiled__:
-                res.feat("fallback-to-interpreted")
-            # layout
-            if (Ti.size, Ti.alignment, [f.offset for f in Ti.__fields__]) != (Tc.size, Tc.alignment, [f.offset for f in Tc.__fields__]):
-                eng.report("compiled and interpreted classes have different size/alignment/offsets", cd0, sigs)
-            # generated source -> plan, validated by the model
-            psx = None
-            if Tc.__compiled__ and "F23" not in sigs:
-                try:
-                    plan = srcplan.parse_source(Tc._read.__func__.__source__)
-                    nplans += 1
-                    ok, why = srcplan.validate(plan, tree, Tc, refimpl.Cfg(endian, align, ptr, impl.CONSTS))
-                    if not ok:
-                        eng.disagree(f"generated source does not validate against the field list: {why}", dict(cd0, source=Tc._read.__func__.__source__), sigs)
-                    # the verified validator (Lean: Compiler.planOK, theorem c03_plan_sound) on the same plan
-                    psx = srcplan.plan_sexp(plan)
-
-                    def cb_ok(s, raw, meta):
-                        if s[0] != "ok":
-                            eng.disagree(f"the Lean plan validator does not accept the generated source ({raw[:80]})", meta, sigs)
-                    eng.ask(sx([A("planok"), Lc.cfg_sexp(), Lc.ty_sexp(), psx]), cb_ok, dict(cd0, source=Tc._read.__func__.__source__))
-                except srcplan.Unknown as e:
-                    eng.disagree(f"generated source has a statement shape the plan translator does not know: {e}", dict(cd0, source=Tc._read.__func__.__source__), sigs)
-            # behaviour
-            size = Ti.size if Ti.size is not None else 40
-            bufs = [rand_bytes(rnd, size + rnd.choice([0, 3, 9])) for _ in range(3)]
-            accepted = None
-            for data in bufs:
-                wi, oi = real_parse(Ti, data)
-                wc, oc = real_parse(Tc, data)
-                res.count((Lc.text, endian, align, ptr, data), len(tree[1]) >= 2)
-                cd = eng.case_data(Lc, data=data)
-                if wi[0] == "ok" and wc[0] == "ok":
-                    if not impl.same_val(wi[1], wc[1]) or wi[2] != wc[2] or wi[3] != wc[3]:
-                        eng.report(f"compiled gives {str(wc)[:300]}, interpreted gives {str(wi)[:300]}", cd, sigs)
-                    accepted = accepted or data
-                elif wi[0] != wc[0]:
-                    # one raises: allowed only on an input too short for the structure
-                    complete = Ti.size is not None and len(data) >= Ti.size
-                    if complete or (wi[0] == "err" and wi[1] != "EOFError") or (wc[0] == "err" and wc[1] != "EOFError"):
-                        eng.report(f"compiled gives {str(wc)[:200]}, interpreted gives {str(wi)[:200]} on a complete input", cd, sigs)
-                    else:
-                        res.feat("short-input:one-reader-raises")
-                if "F23" not in sigs:
-                    eng.model_read(Lc, data, 0, wc if wc[0] == "ok" or wi[0] == "err" else wi, "compiled reader vs model of the interpreted reader",
-                                   sigs) if (wc[0] == wi[0]) else None
-                    if psx is not None:
-                        # the model's execution of the plan (Compiler.exec) vs the real compiled reader
-                        def cb_ex(s, raw, meta, want=wc):
-                            if want[0] == "ok":
-                                ok = s[0] == "ok" and impl.same_val(want[1], s[1]) and int(s[2]) == want[2] and \
-                                    sorted((str(k), int(v)) for k, v in s[3] if int(v)) == want[3]
-                            else:
-                                ok = s[0] == "err" and str(s[1]) == want[1]
-                            if not ok:
-                                eng.disagree(f"model execution of the plan gives {raw[:300]}, the compiled reader gives {str(want)[:300]}", meta, sigs)
-                        eng.ask(sx([A("execplan"), Lc.cfg_sexp(), Lc.ty_sexp(), psx, data, 0]), cb_ex, cd)
-            # every cut point of one accepted buffer
-            if accepted is not None:
-                full, _ = real_parse(Ti, accepted)
-                for k in range(min(len(accepted), full[2] + 1)):
-                    cut = accepted[:k]
-                    wi, _ = real_parse(Ti, cut)
-                    wc, _ = real_parse(Tc, cut)
-                    res.count((Lc.text, endian, align, ptr, cut), False)
-                    if wi[0] == "ok" and wc[0] == "ok" and (not impl.same_val(wi[1], wc[1]) or wi[2] != wc[2]):
-                        eng.report(f"cut at {k}: compiled gives {str(wc)[:200]}, interpreted gives {str(wi)[:200]}", eng.case_data(Lc, data=cut), sigs)
-                    for w in (wi, wc):
-                        if w[0] == "err" and w[1] != "EOFError" and not has_eof(tree):
-                            eng.report(f"cut at {k}: raises {w[1]} instead of EOFError", eng.case_data(Lc, data=cut), sigs)
-            # endianness switched after compilation
-            if rnd.random() < 0.15 and accepted is not None:
-                other = ">" if endian == "<" else "<"
-                Lc.cs.endian = other
-                Li.cs.endian = other
-                wi, _ = real_parse(Ti, accepted)
-                wc, _ = real_parse(Tc, accepted)
-                if wi[0] == wc[0] == "ok" and not impl.same_val(wi[1], wc[1]):
-                    eng.report("after switching endianness the compiled reader differs from the interpreted one", eng.case_data(Lc, data=accepted), sigs)
-                res.feat("endian-switch")
+            probe(tree, endian, align, rnd.choice(widths))
+        if len(eng.lines) > 4000:
+            eng.flush()
+    # (c) pointer-bearing definitions under every pointer width
+    ptrs, near = pointer_fields()
+    pseqs = [[(k, f)] for k, f in ptrs.items()]
+    pairs = [[(k, f), (n, g)] for k, f in ptrs.items() for n, g in near.items()] + [[(n, g), (k, f)] for k, f in ptrs.items() for n, g in near.items()]
+    pairs += [[(k, f), (k2, f2)] for k, f in ptrs.items() for k2, f2 in ptrs.items()]
+    pseqs += pairs if tier == "thorough" else rnd.sample(pairs, 90)
+    for seq in pseqs:
+        fields = []
+        for i, (_, mk) in enumerate(seq):
+            fields += mk(f"f{i}")
+        tree = ("struct", fields)
+        for ptr in s2_ptr.ALL_PTRS:
+            cfgs = list(itertools.product("<>", (False, True)))
+            for endian, align in (cfgs if tier == "thorough" else rnd.sample(cfgs, 1)):
+                res.feat("family-c:pointer-definitions")
+                probe(tree, endian, align, ptr)
         if len(eng.lines) > 4000:
             eng.flush()
     eng.flush()
-    res.notes.append(f"{nplans} generated sources translated to plans and validated")
+    res.notes.append(f"{nplans[0]} generated sources translated to plans and validated")
+    res.programs = nplans[0]
     res.sample({"definition": defs.render_struct("T", trees[40])})
     res.sample({"definition": defs.render_struct("T", trees[-1])})
+    res.sample({"definition": defs.render_struct("T", tree), "pointer": "uint48", "note": "family (c)"})
     return res
 
 
